@@ -1,5 +1,6 @@
 """Mapping property -> rules, with the explanation that goes into the evidence."""
-from .rules import tree_rules, order_rules, opt_rules, gram_rules, driver_rules, writer_rules, edit_rules, head_rules
+from .rules import (tree_rules, order_rules, opt_rules, gram_rules, driver_rules, writer_rules, edit_rules,
+                    head_rules, reader_rules)
 
 RULES = {
     'R-LINK': tree_rules.r_link,
@@ -40,9 +41,271 @@ RULES = {
     'R-EDGE': edit_rules.r_edge,
     'R-HEADS': head_rules.r_heads,
     'R-FLAGS': head_rules.r_flags,
+    'R-READER-STATE': reader_rules.r_reader_state,
+    'R-AUTOMATON': reader_rules.r_automaton,
 }
 
-# minimum number of instances per rule, confirmed by hand on the tree the checker was built for
-FLOORS = {}
 
-PROPS = {}
+def site(*prefixes):
+    return lambda o: any(o.site.startswith(p) for p in prefixes)
+
+
+def rule(*prefixes):
+    return lambda o: any(o.rule.startswith(p) for p in prefixes)
+
+
+def both(a, b):
+    return lambda o: a(o) and b(o)
+
+
+def either(a, b):
+    return lambda o: a(o) or b(o)
+
+
+COMMON_ASSUMPTIONS = [
+    'the analysis reads the source text of /repo/trees/*.py and /repo/treetools; nothing is executed',
+    'callees are resolved through the package\'s own import discipline (from . import m; m.f(...) or f(...)); '
+    'dynamic dispatch is confined to getattr(<module>, name)/globals()[name] on the registries',
+    'two access paths denote the same value when they are textually equal after alias resolution and no '
+    'assignment to a prefix lies between them on any path (kill-based value numbering)',
+    'tables in the rule modules (DISCARD, FILTER, FRAME, PURE, MANDATORY, PROTOCOL, FRESH-KEY, ENC, STATE, SET) '
+    'name symbols with a one-line reason; their structural premises are checked where stated',
+]
+
+PUNCT = ('transform.punctuation_verylow', 'transform.punctuation_symetrify', 'transform.punctuation_root')
+EDITORS = ('transform.punctuation_delete', 'transform.ptb_delete_traces', 'transform.insert_terminals',
+           'transform.substitute_terminals', 'transform.filter_by_length', 'trees.delete_terminal')
+
+PROPS = {
+    'C01': {
+        'rules': ['R-AUTOMATON', 'R-READER-STATE', 'R-LINK', 'R-SIBLING', 'R-OPTKEY', 'R-ENC'],
+        'filter': {'R-LINK': site('treeinput.', 'trees.Tree'),
+                   'R-OPTKEY': site('treeinput.', 'trees.parse_label'),
+                   'R-ENC': either(rule('R-ENC/GUNZIP'), site('treeinput.'))},
+        'explanation': 'Decides, for the readers: the hand-written bracket lexer and 7-state reader conform to the '
+                       'format automaton (total, reject every ill-formed group, same node/label/word/number/attach/'
+                       'yield actions) exhaustively up to a nesting and length bound; per-sentence state is reset '
+                       'after every yield and tokens are numbered from 1; every attach sets the parent pointer; '
+                       'gf_split / gf_separator / replace_parens / continuous / quiet have the same code in every '
+                       'format; option keys are literal, tested before use and forwarded; every reader gunzips. '
+                       'Does NOT decide: export field splitting, TIGER id-ref resolution, character decoding.',
+    },
+    'C02': {
+        'rules': ['R-ESC', 'R-VOCAB', 'R-NONE', 'R-GUARD', 'DECOR', 'R-EXPNUM', 'R-LEVELS', 'R-TABS', 'R-ORDERED',
+                  'R-OPTKEY'],
+        'filter': {'R-GUARD': rule('R-GUARD/BRACKETS'),
+                   'R-ORDERED': either(rule('R-ORDERED/DEF'), site('treeoutput.')),
+                   'R-OPTKEY': site('treeoutput.', 'trees.get_label')},
+        'explanation': 'Decides, for the writers: XML attribute values are escaped and tokens are paren-mapped before '
+                       'they are written; the TIGER reader and writer agree on element/attribute names; optional '
+                       'fields are defaulted before use; the bracket writer writes only under gap degree 0 and '
+                       'raises/skips otherwise; each label decoration depends on its own option and all returns of '
+                       'get_label carry all decorations in order; export numbers are a counter from 500 over ascending '
+                       'levels, left to right, root 0; field separators are never empty. Does NOT decide: that an '
+                       'independent decoder recovers the tree, tab-stop widths, terminals output text.',
+    },
+    'C03': {
+        'rules': ['R-FRAMEFILE', 'R-DISPATCH', 'R-ENC', 'R-NONE', 'R-VOCAB', 'R-AUTOMATON', 'R-OPTKEY'],
+        'filter': {'R-AUTOMATON': rule('R-AUTOMATON/A4', 'R-AUTOMATON/A3', 'R-AUTOMATON/FIELDS'),
+                   'R-OPTKEY': rule('R-OPTKEY/K3')},
+        'explanation': 'Decides, for `treetools transform`: every registry member exists with the arity its dispatch '
+                       'site uses (4 readers x 5 writers total), both output branches frame every file with '
+                       '<fmt>_begin/_end on every path, encodings reach every open and gzip is undone byte-exactly, '
+                       'trees from field-poor formats can be written (None defaults), own reader/writer agree on XML '
+                       'vocabulary and on the discobracket index convention, options are forwarded. Does NOT decide: '
+                       'losslessness of a round trip.',
+    },
+    'C04': {
+        'rules': ['R-LINK', 'R-KEEP', 'R-ROOT', 'R-FRAME', 'R-STALE', 'R-ORDERED'],
+        'filter': {'R-LINK': site('transform.', 'trees.'),
+                   'R-ORDERED': both(rule('R-ORDERED/RAW'), site('transform.', 'trees.'))},
+        'explanation': 'Decides, for every structural transformation: each attach is paired with the parent-pointer '
+                       'update on every path and vice versa, each detach is followed by re-attachment or discard, '
+                       'a detach cannot leave a childless constituent, every return hands back the root (typestate '
+                       'dataflow with root-preservation summaries), only documented node fields are written and only '
+                       'documented nodes move, parents are read in the moving iteration, stored child order is never '
+                       'observed. Does NOT decide: acyclicity in general, label multiset equality.',
+    },
+    'C05': {
+        'rules': ['R-LINK', 'R-FLAGS', 'R-DISCONT', 'R-FRAME', 'R-ORDERED', 'R-KEEP', 'R-HEADS'],
+        'filter': {'R-LINK': site('transform.boyd_split', 'transform.raising'),
+                   'R-KEEP': site('transform.boyd_split', 'transform.raising'),
+                   'R-DISCONT': site('transform.boyd_split', 'trees.terminal_blocks', 'treeanalysis.gap_degree_node'),
+                   'R-FRAME': site('transform.boyd_split', 'transform.raising'),
+                   'R-ORDERED': both(rule('R-ORDERED/RAW'), site('transform.', 'trees.')),
+                   'R-HEADS': rule('R-HEADS/MARK', 'R-HEADS/RANGE')},
+        'explanation': 'Decides: link pairing at the split/raise sites; one copy node per block with split/head/'
+                       'head_block/block_number set unconditionally; defaults on every visited node; the head-block '
+                       'flag can only come from the head child (boolean normal form); the block test is the shared '
+                       'gap predicate; raising discards exactly split, non-head-block, non-root nodes and iterates a '
+                       'copy of the child list; head markers give one head per constituent at a valid index. Does NOT '
+                       'decide: continuity of the result, maximality of the head run.',
+    },
+    'C06': {
+        'rules': ['R-ACCUM', 'R-ARGPOS', 'R-DISCONT', 'R-ORDERED'],
+        'filter': {'R-ACCUM': site('grammar.extract'),
+                   'R-ARGPOS': site('grammar.extract'),
+                   'R-ORDERED': either(rule('R-ORDERED/DEF'), site('grammar.'))},
+        'explanation': 'Decides, for grammar extraction: one `+= 1` per constituent and one lexicon update per token, '
+                       'entries created only when absent; argument positions numbered by emission; a new reference is '
+                       'emitted iff the current argument is empty or ends in another child; one argument per block; '
+                       'vertical context from dominance() with gap degree + 1; the context-freeness test inspects '
+                       'every rule; ordered accessors used. Does NOT decide: that the linearization reproduces the blocks.',
+    },
+    'C07': {
+        'rules': ['R-ARITY', 'R-ARGPOS', 'R-INVERSEMAP'],
+        'filter': {'R-ARGPOS': site('grammar.linsub')},
+        'explanation': 'Decides only: binarized rule keys are triples, rank <= 2 rules are stored verbatim under the '
+                       'rank test, every label handed out is new (counter incremented before each return), one '
+                       'generator per binarize call; linsub numbers argument positions by emission; reordering permutes '
+                       'right-hand sides with a map and renames variables with its inverse. Does NOT decide: the '
+                       'linsub algebra, chain composition, fan-out agreement.',
+    },
+    'C08': {
+        'rules': ['R-ACCUM'],
+        'explanation': 'Decides the clause "never only the last one seen": every store into a count slot accumulates '
+                       '(+=, right-hand side reads the slot, or a local derived from it on every path), entries are '
+                       'created only under `key not in table`, the count handed to the binarizer is the source rule\'s '
+                       'own count, every writer prints the sum over contexts, task accumulators count each unit once. '
+                       'Does NOT decide: the numeric balance equation.',
+    },
+    'C09': {
+        'rules': ['R-MUSTUSE', 'R-ENC', 'R-GUARD', 'R-ACCUM', 'R-IDCOUNTER', 'R-SORTEDPOS', 'R-OPTKEY', 'R-STATE'],
+        'filter': {'R-GUARD': rule('R-GUARD/LOPAR'),
+                   'R-ACCUM': either(rule('R-ACCUM/PRINT'), site('grammarinput.', 'grammaroutput.')),
+                   'R-ENC': site('grammarinput.', 'grammaroutput.', 'grammar.run'),
+                   'R-OPTKEY': site('grammarinput.', 'grammaroutput.'),
+                   'R-STATE': both(rule('R-STATE/G6', 'R-STATE/G5'), site('grammaroutput.'))},
+        'explanation': 'Decides: the grammar command binds what the grammar reader returns; encodings reach every open '
+                       'and the driver passes source/destination encoding to the right side; LoPar refuses non-context-'
+                       'free grammars before opening files; printed counts are sums over contexts; PMCFG ids advance '
+                       'once per labelled item; RCG argument positions are written in sorted order; lex_in_grammar is '
+                       'tested literally and works on a copy. Does NOT decide: textual round trip of RCG/PMCFG.',
+    },
+    'C10': {
+        'rules': ['R-GUARD', 'R-ORDERED', 'R-STATE', 'R-FRAME'],
+        'filter': {'R-GUARD': rule('R-GUARD/GAP', 'R-GUARD/TOPDOWN', 'R-GUARD/PLAIN'),
+                   'R-ORDERED': either(rule('R-ORDERED/DEF'), site('transitions.')),
+                   'R-STATE': both(rule('R-STATE/G1'), site('transitions', 'transitionoutput', 'trees')),
+                   'R-FRAME': both(rule('R-FRAME/PURE'), site('transitions.'))},
+        'explanation': 'Decides: the gap oracle emits UNARY through a closure loop and cannot stop before it ran; the '
+                       'top-down oracle dispatches arity 0/1/2 exhaustively on the ordered children with the head side '
+                       'from the first ordered child; oracles neither write the tree nor keep state between calls; '
+                       'the pos option selects the POS component. Does NOT decide: replay soundness.',
+    },
+    'C11': {
+        'rules': ['R-ROOT', 'R-EDIT', 'R-LABELEDIT', 'R-STATE', 'R-FRAME'],
+        'filter': {'R-ROOT': site(*EDITORS),
+                   'R-LABELEDIT': site('transform.ptb_delete_traces'),
+                   'R-STATE': rule('R-STATE/G3'),
+                   'R-FRAME': site(*EDITORS)},
+        'explanation': 'Decides: editing transformations return the root; deletion/insertion shift exactly the tokens '
+                       'right of / at the position by one; every effect of insert/substitute is dominated by '
+                       '1 <= position <= n(+1); only punctuation is deleted and never all of it; the length filter '
+                       'maps lt/gt/eq to </>/==; trace deletion strips gap indices unconditionally and co-indices unless '
+                       'keepcoindex, on every constituent; the terminal-file cache is only written while loading. '
+                       'Does NOT decide: which tokens are traces (string semantics).',
+    },
+    'C12': {
+        'rules': ['R-FRAME', 'R-LINK', 'R-EDGE', 'R-KEEP', 'R-ORDERED'],
+        'filter': {'R-FRAME': site('transform.root_attach'),
+                   'R-LINK': site('transform.root_attach'),
+                   'R-KEEP': site('transform.root_attach'),
+                   'R-ORDERED': either(rule('R-ORDERED/DEF'), site('trees.', 'transform.root_attach'))},
+        'explanation': 'Decides the frame of root_attach: no node field written, only loop variables over the ordered '
+                       'root children move, links paired, the move is dominated by the exact test "left neighbour >= '
+                       'first token and right neighbour <= last token", the sibling-skipping loop recomputes both '
+                       'spans per iteration, right_sibling uses the ordered children. Does NOT decide: equality with '
+                       'the set-based reference.',
+    },
+    'C13': {
+        'rules': ['R-FRAME', 'R-LINK', 'R-KEEP', 'R-PUNCTSEL', 'R-STALE'],
+        'filter': {'R-FRAME': site(*PUNCT), 'R-LINK': site(*PUNCT), 'R-KEEP': site(*PUNCT), 'R-STALE': site(*PUNCT)},
+        'explanation': 'Decides: only tokens filtered by trees.PUNCT / PAIRPUNCT are moved; the moved set is '
+                       'restricted by the documented conditions only; links are paired; no constituent is emptied '
+                       '(guard at move time); targets are read from .parent in the moving iteration. Does NOT decide: '
+                       'that the new parent is the documented one.',
+    },
+    'C14': {
+        'rules': ['R-ROOT', 'R-LABELEDIT', 'R-GUARD', 'R-LINK', 'R-FLAGS'],
+        'filter': {'R-ROOT': site('transform.binarize', 'transform.collapse_unary_chains', 'transform.uncollapse_unary_chains'),
+                   'R-LABELEDIT': site('transform._binarize_tree'),
+                   'R-GUARD': rule('R-GUARD/BINARIZE'),
+                   'R-LINK': site('transform._binarize_tree', 'transform._collapse_unary_chains',
+                                  'transform._uncollapse_unary_chains'),
+                   'R-FLAGS': rule('R-FLAGS/BIN')},
+        'explanation': 'Decides: uncollapse/binarize/collapse return the root; added nodes are labelled "@" + parent '
+                       'category with the co-index blanked (bare on request) and marked head; the head mark is read only '
+                       'after its presence check; children emptied from a node are snapshotted and re-attached with '
+                       'parent pointers. Does NOT decide: reversibility.',
+    },
+    'C15': {
+        'rules': ['R-HEADS', 'R-STATE', 'R-ORDERED'],
+        'filter': {'R-STATE': both(rule('R-STATE/G1'), site('transformconst', 'transform.negra_mark_heads',
+                                                            'transform.mark_heads_by_rules', 'trees')),
+                   'R-ORDERED': both(rule('R-ORDERED/RAW'), site('transform.', 'transformconst.'))},
+        'explanation': 'Decides: the category list of a head rule is only measured or split (never iterated by '
+                       'character); every loop can reach its next iteration and both directions have the same exits; '
+                       'returned positions are child indices; categories compared lower-case and undecorated; both '
+                       'markers give exactly one True per constituent and False to the root; NeGra index definitions '
+                       'and guards; presets and rejections; no state between calls. What remains is table content.',
+    },
+    'C16': {
+        'rules': ['R-DISCONT', 'R-ACCUM', 'R-FRAME', 'R-DISCOORDER', 'R-GUARD', 'R-ORDERED'],
+        'filter': {'R-ACCUM': site('treeanalysis.'),
+                   'R-FRAME': both(rule('R-FRAME/PURE'), site('treeanalysis.', 'trees.')),
+                   'R-GUARD': rule('R-GUARD/BRACKETS', 'R-GUARD/LOPAR'),
+                   'R-ORDERED': either(rule('R-ORDERED/DEF'), site('treeanalysis.'))},
+        'explanation': 'Decides: the four gap tests are one predicate a + 1 < b; gap_degree is the max over all nodes; '
+                       'fan-out[0] = number of arguments; context-free iff no linearization has > 1 argument, tested on '
+                       'every rule; the bracket writer guards on gap degree; tasks count each tree/constituent/token '
+                       'once and keep only accumulated state; analysis functions write nothing; disco_order returns a '
+                       'node as such only for tokens. Does NOT decide: numeric equality with the set-based definition.',
+    },
+    'C17': {
+        'rules': ['R-SPLITARITH', 'R-FRAMEFILE'],
+        'explanation': 'Decides: every part size is an exact non-negative integer in an abstract domain '
+                       '{NonNegInt, Int, InexactInt, Float, Str} (floating-point percentages and unvalidated signs are '
+                       'rejected), the remainder goes to rest or to parts.index(max(parts)), bad specifications raise '
+                       'ValueError; the specification is evaluated against the list actually written, one shared '
+                       'iterator hands out each tree once in order, each part file is framed on every path. '
+                       'Does NOT decide: the sum arithmetic itself.',
+    },
+    'C18': {
+        'rules': ['R-STATE', 'R-READER-STATE', 'R-ARITY', 'R-FRAME'],
+        'filter': {'R-ARITY': rule('R-ARITY/UNIQUE'), 'R-FRAME': rule('R-FRAME/PURE')},
+        'explanation': 'Decides: the inventory of state outliving a call is exactly the two terminal-file caches (no '
+                       'global, no mutable default, no module/class-level write); node ids are read only in Tree; '
+                       'caches are written only while loading and dropped completely; writers leave node content and '
+                       'the caller\'s grammar as found (None-defaulting, #NNN on constituents, save/restore excepted); no '
+                       'output loop over a set except the .start file; readers reset per-sentence state after each '
+                       'yield; label generators are per call. Does NOT decide: additivity as an equation.',
+    },
+    'C19': {
+        'rules': ['R-ORDERED', 'R-LEVELS', 'R-EXPNUM'],
+        'filter': {'R-ORDERED': either(rule('R-ORDERED/DEF'), site('trees.'))},
+        'explanation': 'Decides only: children() sorts by leftmost token, terminals() by number; preorder/postorder yield '
+                       'the node once before/after recursing over the ordered children; siblings use the ordered list; '
+                       'levels are recorded for constituents only and aggregated with max; export numbers are a counter '
+                       'from 500 over ascending levels, left to right. Does NOT decide: LCA, dominance, sibling '
+                       'arithmetic.',
+    },
+    'C20': {
+        'rules': ['DECOR', 'R-OPTKEY', 'R-LABELFIELDS', 'R-LABELSPLIT'],
+        'filter': {'R-OPTKEY': site('trees.')},
+        'explanation': 'Decides: every rebinding of the label in parse_label is a prefix slice whose remainder was '
+                       'recorded (one separator character dropped), indices are split at the last separator and only '
+                       'if numeric, the trace test; format_label reads each component parse_label stores, glues the '
+                       'function with the recorded separator, suppresses the two default literals unless asked; option '
+                       'keys are literal; output decorations follow their options. Does NOT decide: the inverse property '
+                       'over all strings.',
+    },
+}
+
+for _p in PROPS.values():
+    _p.setdefault('filter', {})
+    _p['assumptions'] = list(COMMON_ASSUMPTIONS)
+
+# minimum number of obligations per (property, rule): about 80% of what was confirmed by hand on the tree the
+# checker was built for; a lower count with no violation means an anchor vanished (exit 2)
+FLOORS = {}
